@@ -5,11 +5,21 @@ META = dict(_M)
 CLASSES = ["contracts.C06_all:PairwiseFormulas", "contracts.C06_all:Associativity", "contracts.C06_all:ZeroProbabilityBranch", "contracts.C06_all:GenerateMProcess"]
 
 
+def _native(fn, **kw):
+    from . import C06_native as C
+    return getattr(C, fn)(**kw)
+
+
 def jobs(tier, seed):
-    return e2_jobs("C06", CLASSES, tier, seed)
+    from qverif.core.runner import Job
+    js = e2_jobs("C06", CLASSES, tier, seed)
+    # bounded stand-in (native floats): the degenerate-eigenvalue branch of generate_mprocess(mode 1)
+    js.append(Job("C06/generate_mprocess/degenerate-spectra (instances)", "contracts.C06:_native",
+                  dict(fn="job_generate_mprocess_degenerate", tier=tier, seed=seed), timeout_s=600.0))
+    return js
 
 
 CLAIM = {'engine': 'E2-symtwin', 'level': 'proof',
  'text': 'Every supported pairwise composition is executed unmodified on symbolic operands (all real parameters on the equality-constraint set, pairwise different outcome counts) and proved equal to its quantum-mechanical formula written independently (Born rule, Heisenberg picture, post-measurement states, outcome layout earlier-measurement-first); every bracketing of every type-valid chain of length 3-4 (5 thorough) is proved to give the chain statistics, shape and post-states of the reference semantics; zero-probability outcomes and Povm.generate_mprocess (modes 0,1,2) likewise.',
- 'note': 'all-inputs@config at 1 qubit (qutrit pairs in thorough); regular regime of every thresholded probability is a requires (p >= 2e-8), a zero-probability outcome is covered separately; modes 0/1 relative to the trusted sqrtm / eigh (mode 1 for non-degenerate spectra). Positivity of Born probabilities for PSD operands and physicality of compositions are mathematics, not decided. Floats as reals.',
+ 'note': 'all-inputs@config at 1 qubit (qutrit pairs in thorough); regular regime of every thresholded probability is a requires (p >= 2e-8), a zero-probability outcome is covered separately; modes 0/1 relative to the trusted sqrtm / eigh; mode 1 is proved for spectra whose eigenvalues are further apart than Settings.get_atol(), and its degenerate-eigenvalue branch (floats grouped by tolerance) is evaluated natively on a finite list of degenerate POVM instances (31 quick / 167 thorough) as a bounded stand-in, not counted as proved. Positivity of Born probabilities for PSD operands and physicality of compositions are mathematics, not decided. Floats as reals.',
  'technique': 'contract-based deductive verification (symbolic execution of the real source -> VCs, normaliser + z3)'}
